@@ -1544,7 +1544,9 @@ class Compiler:
             yield EmitText(node.prefix + node.name + node.suffix)
 
     def visit_End(self, node):
-        yield EmitText(node.prefix + node.name + node.space + node.suffix)
+        # the suffix matched by the tag parser already includes the
+        # whitespace before '>' (node.space is that same whitespace)
+        yield EmitText(node.prefix + node.name + node.suffix)
 
     def visit_Attribute(self, node):
         attr_format = (node.space + node.name + node.eq +
